@@ -223,6 +223,14 @@ impl<'a> TextExtractor<'a> {
             // First, consume possibly empty whitespace.
             ws.parse(buf)?;
 
+            // The stream can end here: it is empty (or only whitespace
+            // and comments), or the last operator was one ignored in a
+            // compatibility section.  Pending operands without an
+            // operator are still an error (reported below).
+            if buf.remaining() == 0 && args.is_empty() {
+                break
+            }
+
             let start = buf.get_cursor();
             let o = match op.parse(buf) {
                 Ok(o) => o,
